@@ -93,7 +93,13 @@ pub(crate) fn read_u64(input: &[u8], inposp: &mut usize) -> Result<u64, Error> {
     let mut any: bool = false;
     while *inposp < input.len() && b"0123456789".contains(&input[*inposp]) {
         any = true;
-        value = (value * 10) + (input[*inposp] - 48) as u64;
+        value = match value
+            .checked_mul(10)
+            .and_then(|v| v.checked_add((input[*inposp] - 48) as u64))
+        {
+            Some(v) => v,
+            None => return Err(InnerError::JsonBad("Integer too large", *inposp).into()),
+        };
         *inposp += 1;
     }
     if !any {
@@ -107,7 +113,13 @@ pub(crate) fn read_kind(input: &[u8], inposp: &mut usize) -> Result<u16, Error> 
     let mut any: bool = false;
     while *inposp < input.len() && b"0123456789".contains(&input[*inposp]) {
         any = true;
-        value = (value * 10) + (input[*inposp] - 48) as u32;
+        value = match value
+            .checked_mul(10)
+            .and_then(|v| v.checked_add((input[*inposp] - 48) as u32))
+        {
+            Some(v) => v,
+            None => return Err(InnerError::JsonBad("Kind larger than 65535", *inposp).into()),
+        };
         *inposp += 1;
     }
     if !any {
